@@ -11,8 +11,11 @@ import (
 	"math/rand"
 	"net/http"
 	"net/http/httptest"
+	"net/url"
+	"strconv"
 	"strings"
 	"sync"
+	"time"
 
 	"github.com/apache/arrow-go/v18/arrow"
 	"github.com/apache/arrow-go/v18/arrow/array"
@@ -53,6 +56,11 @@ type c17In struct {
 	// pool: the points (0..6 on response A's timeline) at which response B performs
 	// checkout, first write, second write, close (non-decreasing)
 	Pts []int `json:"pts,omitempty"`
+	// http route "custom": a handler registered through the public HttpServer.Handle that
+	// replays Script (one letter per step, see c17CustomHandler) with content type CType,
+	// status Status and body c17Body(N, BodyKind) split over the script's write steps
+	Script string `json:"script,omitempty"`
+	Method string `json:"method,omitempty"`
 }
 
 const c17Arrow = "application/vnd.apache.arrow.stream"
@@ -88,12 +96,74 @@ type c17BlobParams struct {
 }
 type c17NoParams struct{}
 
+type c17Ref struct {
+	body   []byte
+	status int
+}
+
+// c17CustomHandler is user code behind HttpServer.Handle: it replays a script.
+//   H WriteHeader(st) | w Write(next chunk) | S io.WriteString(next chunk) |
+//   R next chunk through io.ReaderFrom when the writer offers it, else Write |
+//   F Flush through http.Flusher when the writer offers it | C http.NewResponseController(w).Flush() |
+//   D http.NewResponseController(w).SetWriteDeadline(+1min) (reaches through Unwrap)
+func c17CustomHandler(w http.ResponseWriter, r *http.Request) {
+	q := r.URL.Query()
+	ops := q.Get("ops")
+	st, _ := strconv.Atoi(q.Get("st"))
+	n, _ := strconv.Atoi(q.Get("n"))
+	k, _ := strconv.Atoi(q.Get("k"))
+	chunks := c17Chunks(c17Body(n, k), c17Writes(ops))
+	if ct := q.Get("ct"); ct != "" {
+		w.Header().Set("Content-Type", ct)
+	}
+	ci := 0
+	for _, op := range ops {
+		switch op {
+		case 'H':
+			w.WriteHeader(st)
+		case 'w':
+			_, _ = w.Write(chunks[ci])
+			ci++
+		case 'S':
+			_, _ = io.WriteString(w, string(chunks[ci]))
+			ci++
+		case 'R':
+			if rf, ok := w.(io.ReaderFrom); ok {
+				_, _ = rf.ReadFrom(bytes.NewReader(chunks[ci]))
+			} else {
+				_, _ = w.Write(chunks[ci])
+			}
+			ci++
+		case 'F':
+			if f, ok := w.(http.Flusher); ok {
+				f.Flush()
+			}
+		case 'C':
+			_ = http.NewResponseController(w).Flush()
+		case 'D':
+			_ = http.NewResponseController(w).SetWriteDeadline(time.Now().Add(time.Minute))
+		}
+	}
+}
+
+func c17Writes(ops string) int {
+	return strings.Count(ops, "w") + strings.Count(ops, "S") + strings.Count(ops, "R")
+}
+
+func c17Chunks(body []byte, k int) [][]byte {
+	out := make([][]byte, k)
+	for i := 0; i < k; i++ {
+		out[i] = body[len(body)*i/k : len(body)*(i+1)/k]
+	}
+	return out
+}
+
 type c17Srv struct {
 	ts   *httptest.Server
 	errs []bool
 	oks  []bool
 	mu   sync.Mutex
-	refs map[string][]byte
+	refs map[string]c17Ref
 }
 
 var (
@@ -135,7 +205,9 @@ func c17Server(levels []int) *c17Srv {
 		}
 		return vgirpc.Anonymous(), nil
 	})
-	s := &c17Srv{refs: map[string][]byte{}}
+	h.Handle("POST /c17x", c17CustomHandler)
+	h.Handle("GET /c17x", c17CustomHandler)
+	s := &c17Srv{refs: map[string]c17Ref{}}
 	for _, l := range levels {
 		s.oks = append(s.oks, c17ProbeOK(l))
 		s.errs = append(s.errs, h.SetCompressionLevel(l) != nil)
@@ -205,7 +277,7 @@ var c17Routes = map[string]c17Route{
 }
 
 var c17RouteNames = []string{"blob", "blob", "blob", "blob", "fail", "nosuch", "badct", "garbage", "rpcdesc",
-	"health", "landing", "describe", "notfound", "options", "auth401", "auth500"}
+	"health", "landing", "describe", "notfound", "options", "auth401", "auth500", "custom", "custom", "custom", "custom", "custom"}
 
 func c17Do(s *c17Srv, rt c17Route, in c17In, withAccept bool) (*http.Response, []byte) {
 	var body io.Reader
@@ -376,6 +448,20 @@ func c17Gen(r *rand.Rand, n int, tier string) []c17In {
 			}
 		}
 	}
+	// routes registered through HttpServer.Handle whose handler flushes / reaches for the
+	// optional ResponseWriter interfaces before, between and after its writes
+	for i, script := range []string{"w", "ww", "Fww", "wFw", "wwF", "Cww", "wCw", "wwC", "HFww", "HCww", "HwFw", "FCwFwC", "Rw", "wR", "FRw",
+		"Sw", "FSw", "DwFw", "HDCw", "F", "C", "HF", "", "HwwwF", "FwFwFw"} {
+		for j, p := range [][2]string{{"", "zstd"}, {"zstd, gzip", ""}, {"", "gzip, zstd"}, {"gzip", "gzip"}} {
+			in := c17In{Kind: "http", Custom: p[0], Standard: p[1], Levels: []int{}, Route: "custom", Script: script, CType: c17Arrow,
+				Status: []int{201, 200, 404, 500}[(i+j)%4], N: []int{51200, 1, 3000, 70000}[(i+2*j)%4], BodyKind: 1 + i%3, Method: []string{"POST", "GET"}[(i+j)%2]}
+			out = append(out, in)
+		}
+		out = append(out, c17In{Kind: "http", Custom: "zstd", Standard: "zstd", Levels: []int{3}, Route: "custom", Script: script,
+			CType: []string{"text/html; charset=utf-8", "application/json", c17Arrow + "; charset=utf-8"}[i%3], Status: 200, N: 3000, BodyKind: 1})
+		out = append(out, c17In{Kind: "http", Custom: "gzip", Standard: "", Levels: c17LevelSeqs[i%len(c17LevelSeqs)], Route: "custom", Script: script,
+			CType: c17Arrow, Status: 200, N: []int{0, 2000}[i%2], BodyKind: 2})
+	}
 	// overlapping responses on one writer pool: forced interleavings (see c17RunPool).
 	// Every schedule in which B checks out inside A's Close first, for both codecs and
 	// every accepted level; then the sequential extremes; thorough: all 210 schedules.
@@ -405,9 +491,22 @@ func c17Gen(r *rand.Rand, n int, tier string) []c17In {
 				N: []int{0, 1, 17, 4000, 70000}[r.Intn(5)], BodyKind: r.Intn(4), Status: []int{0, 200, 500}[r.Intn(3)]})
 		default:
 			sizes := []int{0, 1, 31, 1024, 20000, maxBody}
-			out = append(out, c17In{Kind: "http", Custom: c17Header(r, false), Standard: c17Header(r, false),
+			in := c17In{Kind: "http", Custom: c17Header(r, false), Standard: c17Header(r, false),
 				Levels: c17LevelSeqs[r.Intn(len(c17LevelSeqs))], Route: c17RouteNames[r.Intn(len(c17RouteNames))],
-				N: sizes[r.Intn(len(sizes))], BodyKind: r.Intn(4)})
+				N: sizes[r.Intn(len(sizes))], BodyKind: r.Intn(4)}
+			if in.Route == "custom" {
+				script := ""
+				if r.Intn(3) == 0 {
+					script = "H"
+				}
+				for k := r.Intn(7); k > 0; k-- {
+					script += string("wwwFFCCRSD"[r.Intn(10)])
+				}
+				in.Script, in.Status = script, []int{200, 201, 202, 404, 418, 500, 503}[r.Intn(7)]
+				in.CType = []string{c17Arrow, c17Arrow, c17Arrow, "text/html; charset=utf-8", "application/json", "text/plain", c17Arrow + ";v=1"}[r.Intn(7)]
+				in.Method = []string{"POST", "GET"}[r.Intn(2)]
+			}
+			out = append(out, in)
 		}
 	}
 	return out
@@ -464,24 +563,49 @@ func c17Run(in c17In) CaseOut {
 			Tags: tags, Nontrivial: true, Obs: map[string]any{"ce": ce, "xce": xce, "body_ok": ok, "raw_eq": rawEq, "wire_len": len(raw)}}
 	case "http":
 		rt, okRoute := c17Routes[in.Route]
+		if in.Route == "custom" {
+			m := in.Method
+			if m == "" {
+				m = "POST"
+			}
+			q := url.Values{"ops": {in.Script}, "ct": {in.CType}, "st": {strconv.Itoa(in.Status)}, "n": {strconv.Itoa(in.N)}, "k": {strconv.Itoa(in.BodyKind)}}
+			rt, okRoute = c17Route{method: m, path: "/c17x?" + q.Encode(), respCT: in.CType, nonEmpty: in.N > 0 && c17Writes(in.Script) > 0}, true
+		}
 		if !okRoute {
 			panic("C17: unknown route " + in.Route)
 		}
 		s := c17Server(in.Levels)
-		refKey := fmt.Sprintf("%s/%d/%d", in.Route, in.N, in.BodyKind)
+		refKey := fmt.Sprintf("%s/%d/%d/%s/%s/%d/%s", in.Route, in.N, in.BodyKind, in.Script, in.CType, in.Status, in.Method)
 		s.mu.Lock()
-		ref, have := s.refs[refKey]
+		refRec, have := s.refs[refKey]
 		s.mu.Unlock()
 		if !have {
-			_, ref = c17Do(s, rt, in, false)
-			s.refs[refKey] = ref
+			r0, b0 := c17Do(s, rt, in, false)
+			refRec = c17Ref{body: b0, status: r0.StatusCode}
+			s.refs[refKey] = refRec
+		}
+		ref := refRec.body
+		if in.Route == "custom" {
+			// what the scripted handler produced is known a priori; the reference request must agree
+			want, wantSt := []byte{}, 200
+			if c17Writes(in.Script) > 0 {
+				want = c17Body(in.N, in.BodyKind)
+			}
+			if strings.Contains(in.Script, "H") {
+				wantSt = in.Status
+			}
+			if !bytes.Equal(ref, want) || refRec.status != wantSt {
+				panic(fmt.Sprintf("C17 custom route: reference response (status %d, %d bytes) is not what the script produces (status %d, %d bytes)", refRec.status, len(ref), wantSt, len(want)))
+			}
+			tags = append(tags, "script="+in.Script, fmt.Sprintf("flushes=%v", strings.ContainsAny(in.Script, "FC")))
 		}
 		resp, raw := c17Do(s, rt, in, true)
 		ce, xce := c17HeaderVal(resp.Header, "Content-Encoding"), c17HeaderVal(resp.Header, "X-VGI-Content-Encoding")
 		advVals, advPresent := resp.Header[http.CanonicalHeaderKey("VGI-Supported-Encodings")]
 		adv := strings.Join(advVals, ",")
 		ct := c17HeaderVal(resp.Header, "Content-Type")
-		ok := c17BodyOK(ce, xce, raw, ref)
+		// ok: the response is the handler's — its status, and its body once decoded with the stamped codec
+		ok := c17BodyOK(ce, xce, raw, ref) && resp.StatusCode == refRec.status
 		rawEq := bytes.Equal(raw, ref)
 		ops := make([]string, len(in.Levels))
 		for i, l := range in.Levels {
@@ -501,7 +625,7 @@ func c17Run(in c17In) CaseOut {
 		coqObs := App("C17.OHttp", ListOf(s.errs, Bool), Opt(advPresent, B(adv)), B(ct), B(ce), B(xce), Bool(ok), Bool(rawEq))
 		return CaseOut{Coq: Pair(coqIn, coqObs), Tags: tags, Nontrivial: true,
 			Obs: map[string]any{"status": resp.StatusCode, "content_type": ct, "ce": ce, "xce": xce, "advert": adv, "advert_present": advPresent,
-				"body_ok": ok, "raw_eq": rawEq, "wire_len": len(raw), "ref_len": len(ref), "set_level_errs": s.errs}}
+				"body_ok": ok, "raw_eq": rawEq, "wire_len": len(raw), "ref_len": len(ref), "ref_status": refRec.status, "set_level_errs": s.errs}}
 	}
 	if in.Kind == "pool" {
 		return c17RunPool(in, tags)
@@ -683,6 +807,6 @@ func c17StampTag(ce, xce string) string {
 }
 
 func init() {
-	Register("C17", "boundary first (the header pairs of http_compression_test.go and spec edge pairs through choose, parse and real HTTP; every level sequence; every route; body sizes 0..max; every content type x codec through finish), then random: 25% parse and 30% choose on generated ASCII headers (tokens in mixed case, blanks, q-values/parameters, duplicates, unknown codecs, identity anywhere, empty items, control bytes, 8% malformed character soup) with 12 producible sets, 5% finish, 40% real HTTP round trips (13 routes incl. HTML/JSON/plain-text/empty bodies and Arrow error bodies, 17 SetCompressionLevel sequences, bodies up to 64 KiB quick / 1 MiB thorough of four compressibility kinds). Pool: forced interleavings of two overlapping compressed responses A and B on the REAL writer pool (B's checkout / write / write / Close placed at 7 points of A's timeline, two of them inside A's pooledCodecWriter.Close on either side of the real resetNil): all schedules with B's checkout inside A.Close for gzip+zstd x levels 1..4 first, sequential extremes, ~9% random schedules (thorough: all 210 x 8); observed per response: decodes to its own body, and whether the pool handed B the writer A references. Non-trivial: the two responses overlap / parse yields a token / some accept header is non-blank / every finish and http case. distinct = distinct input JSON",
+	Register("C17", "boundary first (the header pairs of http_compression_test.go and spec edge pairs through choose, parse and real HTTP; every level sequence; every route; body sizes 0..max; every content type x codec through finish), then random: 25% parse and 30% choose on generated ASCII headers (tokens in mixed case, blanks, q-values/parameters, duplicates, unknown codecs, identity anywhere, empty items, control bytes, 8% malformed character soup) with 12 producible sets, 5% finish, 40% real HTTP round trips (13 routes incl. HTML/JSON/plain-text/empty bodies and Arrow error bodies, 17 SetCompressionLevel sequences, bodies up to 64 KiB quick / 1 MiB thorough of four compressibility kinds). Custom routes: handlers registered through the public HttpServer.Handle replay a script (Content-Type, optional WriteHeader, then writes via Write / io.WriteString / io.ReaderFrom interleaved with http.Flusher.Flush, ResponseController.Flush and SetWriteDeadline before, between and after the writes): 25 scripts x 4 accept pairs x sizes/statuses/methods first, then random scripts; observed over a real connection, ok = status is the handler's and the body decodes with the stamped codec to what the handler wrote. Pool: forced interleavings of two overlapping compressed responses A and B on the REAL writer pool (B's checkout / write / write / Close placed at 7 points of A's timeline, two of them inside A's pooledCodecWriter.Close on either side of the real resetNil): all schedules with B's checkout inside A.Close for gzip+zstd x levels 1..4 first, sequential extremes, ~9% random schedules (thorough: all 210 x 8); observed per response: decodes to its own body, and whether the pool handed B the writer A references. Non-trivial: the two responses overlap / parse yields a token / some accept header is non-blank / every finish and http case. distinct = distinct input JSON",
 		c17Gen, c17Run)
 }
